@@ -244,6 +244,13 @@ def judge(ctx, mode, extra, obs, acc):
         for b in bad:
             found.append((b[0], '%s mode=%s extra=%s qry=%s %s | %s' % (origin, mode, list(extra), row.queryId,
                                                                         '-' if rev else '+', b[1]), origin, {}))
+        # -ms is wired too: a candidate with a single non-empty segment was never trimmed, so that segment is exactly what the
+        # factory accepted and must reach the minScore given on the command line
+        if origin == 'candidate':
+            ne = [sg for sg in row.segments if not sg.empty]
+            if len(ne) == 1 and ne[0].segmentScore < p['ms'] - 1e-6:
+                found.append(('untrimmed-segment-below-given-minScore', 'mode=%s extra=%s qry=%s segment score %s < -ms %s' % (
+                    mode, list(extra), row.queryId, ne[0].segmentScore, p['ms']), origin, {}))
         if acc is not None:
             acc.classes[origin + '-rows'] += 1
             if boundary:
